@@ -95,7 +95,11 @@ def check_builder_language(ctx, led, v, rule="C08.official"):
         if NUM_OF_VERSION.get(version, {3: 3, 4: 4}.get(version)) == v:
             cases.append(("all metrics" if all_metrics else "mandatory", version, order))
     if not cases:
-        raise AnalysisError("C08.official", "the field order of the interactive builder could not be determined for version %d" % v)
+        # the semantic analysis of the builder did not arrive at "one field per asked metric" for this
+        # version: that is reported (violation or analysis error) by the C08.builder.* rules, which
+        # run the same analysis under this property's name; there is no language to compare here
+        led.info(rule, "ask_interactively [v%d]" % v, "cvss/interactive.py", "field order of the builder not available: see C08.builder.*")
+        return 0
     for label, version, order in cases:
         fields = []
         for k in order:
